@@ -26,7 +26,7 @@ type c09Spec struct {
 	Leave     bool     `json:"leave"`
 	FailMW    bool     `json:"first_write_of_the_master_key_on_leaving_fails"`
 	ByDelete  bool     `json:"maintenance_key_deleted_by_hand"` // instead of mysync maint off
-	EnterRace string   `json:"enter_race"` // none switch_pending master_dead
+	EnterRace string   `json:"enter_race"`                      // none switch_pending master_dead
 }
 
 var c09Events = []string{"restart_daemon_with_marker", "restart_daemon_without_marker", "restart_all_daemons", "zk_cut_one", "zk_outage", "crash_replica", "crash_master", "file_switch", "stop_replication", "restart_during_zk_outage"}
